@@ -270,6 +270,8 @@ def gen_not(rng, vocab, dirs):
         (d + '/<<?>/>*', 'exh'), (d + '/**/*', 'exh'), ('<%s:1>/**' % d, 'exh'), ('{%s,%s}/**' % (d, n), 'exh'),
         ('{%s/**,{%s/**,*.md}}' % (d, n), 'mixed'), ('<%s/**:1>' % d, 'exh'), ('{{%s/**}}' % d, 'exh'),
         ('**/' + d + '/*', 'nonexh'), ('*/**', 'exh'), ('**/' + n + '/**', 'exh'),
+        # rooted patterns never match a root-relative path
+        ('/**', 'rooted'), ('/' + d + '/**', 'rooted'), ('{/**,%s}' % n, 'rooted-mixed'), ('/**/' + n, 'rooted'),
     ]
     weights = [1 if e in ('**', '*/**', '*') else 3 for e, _ in table]
     return rng.choices(table, weights)[0]
